@@ -411,6 +411,46 @@ def breaking_variants(root):
         nth(lambda s: isinstance(s, ast.Assign) and ast.unparse(s) == 'lru = self.__encode(lru)'), 'pass')
     add(L, 'LRUTrie.follow_lru', 'R-RETURN-SHAPE', 'miss reported as a bare None',
         nth(lambda s: isinstance(s, ast.Return) and isinstance(s.value, ast.Tuple) and ast.unparse(s.value.elts[0]) == 'None'), 'return None')
+    # ---- round 7
+    add(T, 'Traph.clear', 'R-GEN-DRAINED', 'rules re-registered through the generator, never advanced',
+        nth_expr(lambda n: isinstance(n, ast.Attribute) and n.attr == 'add_webentity_creation_rule'), 'self.add_webentity_creation_rule_iter')
+    add(T, 'Traph.get_webentity_child_webentities_iter', 'R-YIELD-NEUTRAL', 'the yielding round skips its item',
+        nth(lambda s: isinstance(s, ast.If) and 'should_yield' in ast.unparse(s.test)),
+        lambda n, src: seg(src, n) + '\n                    continue')
+    add(T, 'Traph.get_webentity_most_linked_pages_iter', 'R-ACCUMULATE', 'heap re-initialised for every prefix',
+        nth(lambda s: isinstance(s, ast.Assign) and '__encode' in ast.unparse(s.value)),
+        lambda n, src: seg(src, n) + '\n            pages = []')
+    add(T, 'Traph.get_webentity_parent_webentities', 'R-ACCUMULATE', 'parents re-initialised for every prefix',
+        nth(lambda s: isinstance(s, ast.Assign) and '__encode' in ast.unparse(s.value)),
+        lambda n, src: seg(src, n) + '\n            weids = set()')
+    add(T, 'Traph.close', 'R-CLOSE', 'link store closed under the test of the trie handle',
+        nth_expr(lambda n: isinstance(n, ast.If) and ast.unparse(n.test) == 'self.link_store_file'),
+        lambda n, src: seg(src, n).replace('if self.link_store_file:', 'if self.link_store_file and not self.lru_trie_file.closed:', 1))
+    add(T, 'Traph.clear', 'R-TRUNC-ORDER', 'link store truncated before the trie',
+        nth(lambda s: isinstance(s, ast.Assign) and ast.unparse(s.targets[0]) == 'self.lru_trie_file' and 'open(' in ast.unparse(s.value)),
+        lambda n, src: 'self.link_store_file = open(self.link_store_path, "wb+")\n            ' + seg(src, n))
+    add(T, 'Traph.delete_webentity', 'R-PREFIX-EDIT', 'prefixes of another owner silently kept',
+        nth(lambda s: call_stmt(s, 'unset_webentity')),
+        lambda n, src: 'if weid and node.webentity() != weid:\n                continue\n            ' + seg(src, n))
+    add(T, 'Traph.links_iter', 'R-LINK-WALK', 'self-links skipped in the enumeration',
+        nth(lambda s: isinstance(s, ast.Expr) and isinstance(s.value, ast.Yield)),
+        lambda n, src: 'if target == page_node.block:\n                    continue\n                ' + seg(src, n))
+    add(T, 'Traph.get_page_links', 'R-FILTER-AGREE', 'outlinks walked only for outbound requests',
+        nth_expr(lambda n: isinstance(n, ast.BoolOp) and ast.unparse(n) == 'include_outbound or include_internal'), 'include_outbound')
+    add(H, 'lru_dirname', 'R-LRU-ASSEMBLY', 'last stem cut on the raw bytes',
+        nth(lambda s: isinstance(s, ast.Return)), 'return lru[:-1].rsplit(b"|", 1)[0] + b"|"')
+    add(L, 'LRUTrie.node_parents_iter', 'R-LRU-ASSEMBLY', 'climb bounded by a depth constant',
+        nth_expr(lambda n: isinstance(n, ast.While)),
+        lambda n, src: seg(src, n).replace('while parent.has_parent():', 'while parent.has_parent() and parent.block > 4096:', 1))
+    add(H, 'parse_pagination_token', 'R-TOKEN-CODEC', 'token cut at fixed positions',
+        nth(lambda s: isinstance(s, ast.Assign) and 'split' in ast.unparse(s.value)), 'i, b64_path = token[0], token[2:]')
+    add(H, 'lru_variations', 'R-VARIATIONS', 'www test on a lower-cased copy',
+        nth_expr(lambda n: isinstance(n, ast.Compare) and ast.unparse(n.left) == 'hosts[-1]'), 'hosts[-1].lower() == b"h:www"')
+    add(H, 'https_variation', 'R-VARIATIONS', 'scheme test without closing separator',
+        nth_expr(lambda n: isinstance(n, ast.Constant) and n.value == b's:http|'), 'b"s:http"')
+    add(T, 'Traph.__init__', 'R-ENCODED', 'rule registered under the raw key on reopen',
+        nth(lambda s: call_stmt(s, 'add_webentity_creation_rule')),
+        'self.webentity_creation_rules[prefix] = re.compile(pattern, re.I)')
     return out
 
 
